@@ -187,6 +187,7 @@ func (p point) coq(b *basis) string {
 }
 
 func nilPoint() point { return point{kind: "nil"} }
+
 // bytes that are not a curve point: Signature.Deserialize leaves the nil signature
 func offPoint() point {
 	bs := make([]byte, 64)
@@ -688,12 +689,28 @@ func main() {
 		msgs = arr
 
 		// ---- run on the implementation ----
-		v, err0 := logical.VerifR1New(logical.VerifR1Config{Self: ids[0], Group: gInfo, PreBH: preBH, BH: bh, BlockExists: existed, Net: netStub})
-		if err0 != nil || v == nil {
+		// some runs: the first messages arrived while round0 was still busy and are replayed by round1.Start
+		nFut := 0
+		if r.Intn(4) == 0 && len(msgs) > 0 {
+			nFut = 1 + r.Intn(len(msgs))
+			if nFut > k+2 {
+				nFut = k + 2
+			}
+		}
+		mkCvm := func(i int) *model.ConsensusVerifyMessage {
+			m := msgs[i]
+			return &model.ConsensusVerifyMessage{BlockHash: m.filed, RandomSign: m.rsig.sig, Id: fmt.Sprintf("m%d-%d", run, i),
+				SignInfo: model.MakeSignInfo(m.dhash, m.sig.sig, mkID(m.sender), common.ConsensusVersion)}
+		}
+		var futCvm []*model.ConsensusVerifyMessage
+		for i := 0; i < nFut; i++ {
+			futCvm = append(futCvm, mkCvm(i))
+		}
+		v, err0 := logical.VerifR1New(logical.VerifR1Config{Self: ids[0], Group: gInfo, PreBH: preBH, BH: bh, BlockExists: existed, Net: netStub, Future: futCvm})
+		if v == nil {
 			res.Violate("C15/harness:round-start", fmt.Sprint("round1.Start failed: ", err0), nil)
 			continue
 		}
-		v.Log.Take()
 		thr := v.Threshold()
 		obs := make([][2]int, len(msgs))
 		closed, finished := false, false
@@ -711,15 +728,89 @@ func main() {
 				ks = append(ks, g.keys[j].String())
 			}
 			return map[string]interface{}{"n": n, "k": k, "ids": is, "member_keys": ks, "group_secret": g.gsk.String(), "unknown_member": unknownMember,
-				"block_hash": bhHash.Hex(), "pre_random": hex.EncodeToString(preRandom), "block_exists": existed, "consistent_keys": consistent, "messages": ml}
+				"block_hash": bhHash.Hex(), "pre_random": hex.EncodeToString(preRandom), "block_exists": existed, "consistent_keys": consistent,
+				"replayed_at_start": nFut, "messages": ml}
 		}
+		// the replay: split the round's log at the "round1 update" lines, which name the message id
+		var futOrder []int
+		var futObs []int
+		futTerm := tNone
+		if nFut > 0 {
+			lines := v.Log.Take()
+			var seg []logical.VerifR1LogLine
+			cur := -1
+			flush := func() {
+				if cur >= 0 {
+					oc, _ := classify(logical.VerifR1Step{Logs: seg})
+					futOrder = append(futOrder, cur)
+					futObs = append(futObs, oc)
+					if oc == oAdded || oc == oRecovered {
+						admitted = append(admitted, cur)
+					}
+					res.Histogram["msg(replayed):"+strings.TrimPrefix(msgs[cur].kind, "dup:")+"->"+oNames[oc]]++
+				}
+				seg = nil
+			}
+			for _, l := range lines {
+				if strings.HasPrefix(l.Format, "round1 update, from:") {
+					flush()
+					cur = -1
+					if p := strings.LastIndex(l.Text, "id: "); p >= 0 {
+						var rr, ii int
+						if _, e := fmt.Sscanf(l.Text[p+4:], "m%d-%d", &rr, &ii); e == nil && rr == run && ii < nFut {
+							cur = ii
+						}
+					}
+					if cur < 0 {
+						res.Violate("C15/harness:replay-log", "cannot attribute a replayed message: "+l.Text, desc())
+					}
+				}
+				seg = append(seg, l)
+			}
+			flush()
+			if err0 != nil {
+				if strings.Contains(err0.Error(), "block already existed") {
+					futTerm = tErrExisted
+				} else {
+					futTerm = tErrOther
+				}
+				closed = true
+			} else {
+				if len(futOrder) != nFut {
+					res.Violate("C15/harness:replay-count", fmt.Sprintf("%d of %d stored messages replayed", len(futOrder), nFut), desc())
+				}
+				st := v.Tick()
+				_, futTerm = classify(st)
+				if futTerm == tDone {
+					finished = true
+				} else if futTerm != tNone {
+					closed = true
+				}
+			}
+			finalTerm = futTerm
+			// unprocessed stored messages (after an error) go to the end of the replay list
+			seenF := map[int]bool{}
+			for _, x := range futOrder {
+				seenF[x] = true
+			}
+			for i := 0; i < nFut; i++ {
+				if !seenF[i] {
+					futOrder = append(futOrder, i)
+				}
+			}
+		} else {
+			v.Log.Take()
+		}
+		plog.Take()
 		for i, m := range msgs {
+			if i < nFut {
+				continue
+			}
 			if closed {
 				obs[i] = [2]int{oClosed, tNone}
 				continue
 			}
-			cvm := &model.ConsensusVerifyMessage{BlockHash: m.filed, RandomSign: m.rsig.sig, Id: fmt.Sprintf("m%d-%d", run, i),
-				SignInfo: model.MakeSignInfo(m.dhash, m.sig.sig, mkID(m.sender), common.ConsensusVersion)}
+			cvm := mkCvm(i)
 			before := len(v.GIDs())
 			st := v.Update(cvm)
 			if pl := plog.Take(); len(pl) > 0 {
@@ -748,6 +839,9 @@ func main() {
 				}
 			}
 			res.Histogram["msg:"+strings.TrimPrefix(m.kind, "dup:")+"->"+oNames[oc]]++
+		}
+		if len(admitted) != len(v.GIDs()) {
+			res.Violate("C15/harness:admitted-count", fmt.Sprintf("%d admissions observed, %d entries in the recovery set", len(admitted), len(v.GIDs())), desc())
 		}
 		if finished {
 			v.WaitAdded(2 * time.Second)
@@ -852,17 +946,29 @@ func main() {
 		for _, h := range b.h {
 			hsl = append(hsl, zs(h))
 		}
-		var ml, ol, al []string
+		var ml, ol, al, fl, fol []string
+		coqMsg := func(m vmsg) string {
+			return fmt.Sprintf("(%s,%d%%nat,%s,%s)", zs(m.sender), m.dh, m.sig.coq(b), m.rsig.coq(b))
+		}
+		for _, x := range futOrder {
+			fl = append(fl, coqMsg(msgs[x]))
+		}
+		for _, oc := range futObs {
+			fol = append(fol, fmt.Sprintf("%d%%N", oc))
+		}
 		for i, m := range msgs {
-			ml = append(ml, fmt.Sprintf("(%s,%d%%nat,%s,%s)", zs(m.sender), m.dh, m.sig.coq(b), m.rsig.coq(b)))
+			if i < nFut {
+				continue
+			}
+			ml = append(ml, coqMsg(m))
 			ol = append(ol, fmt.Sprintf("(%d,%d)%%N", obs[i][0], obs[i][1]))
 		}
 		for _, ai := range admitted {
 			al = append(al, zs(msgs[ai].sender))
 		}
-		term := fmt.Sprintf("CRun %d%%Z %d%%nat %s %s %s %s %d%%nat %s %s %s %s %s %s",
+		term := fmt.Sprintf("CRun %d%%Z %d%%nat %s %s %s %s %d%%nat %s %s %d%%N %s %s %s %s %s %s",
 			n, thr, hx.CoqList(mem), zs(g.gsk), hx.CoqBool(existed), hx.CoqList(hsl), prIdx,
-			hx.CoqList(ml), hx.CoqList(ol), hx.CoqList(al), hx.CoqBool(recG), zs(gsScalar), zs(rsScalar))
+			hx.CoqList(fl), hx.CoqList(fol), futTerm, hx.CoqList(ml), hx.CoqList(ol), hx.CoqList(al), hx.CoqBool(recG), zs(gsScalar), zs(rsScalar))
 		cs.Add(term, desc())
 
 		nByzSeen := 0
